@@ -291,6 +291,7 @@ func (w *Worker) runPath(cfg RunConfig, prefix []int) *PathResult {
 	for _, f := range pr.Fails {
 		f.Choices = append([]int{}, ex.chooseLog...)
 		f.Labels = append([]string{}, ex.labels...)
+		f.UFChoice = ex.res.UFChoice
 		f.fingerprint()
 	}
 	if w.P.countFns {
